@@ -13,7 +13,7 @@ def first_of(*pairs):
     return conds
 
 
-@harness('K1', targets='kopf._core.intents.causes.detect_changing_cause', props=['C05', 'C14'],
+@harness('K1', targets='kopf._core.intents.causes.detect_changing_cause', props=['C05', 'C14', 'C03', 'C06', 'C15'],
          clauses=['precedence', 'create_clears_initial', 'passes_through', 'total'],
          canaries=['canary.never_update', 'canary.initial_kept_on_create'])
 def K1(vc):
@@ -110,7 +110,7 @@ def spec_blocked(body, finalizer):
 
 
 @harness('K2', targets=['kopf._cogs.structs.finalizers.is_deletion_ongoing', 'kopf._cogs.structs.finalizers.is_deletion_blocked'],
-         props=['C05', 'C06'], clauses=['ongoing', 'blocked', 'pure'], canaries=['canary.always_ongoing'],
+         props=['C05', 'C06', 'C03', 'C09', 'C14', 'C15'], clauses=['ongoing', 'blocked', 'pure'], canaries=['canary.always_ongoing'],
          assumes=['bodies.Body is a transparent read-only mapping view of the raw JSON object (dicts.MappingView): body.get(k, d) == raw.get(k, d)'])
 def K2(vc):
     """The two finalizer predicates are exactly the JSON facts the property names: deletion mark =
